@@ -131,12 +131,18 @@ Inductive sdefault :=
 | SdIdentity (i:identity)                     (* Identity(always=, on_null=, start=, ...) *)
 | SdFetched.                                  (* a plain FetchedValue() (exactly that class) *)
 
+(* c_key: Column.key when it differs from the database name (what the ORM produces for uname = mapped_column("user_name"));
+   every renderer must address the column by c_name *)
 Record column := mkCol { c_name : ident; c_type : tytok; c_default : option sdefault; c_autoinc : option bool;
-                         c_nullable : bool; c_system : bool; c_comment : option str }.
+                         c_nullable : bool; c_system : bool; c_comment : option str; c_key : option str }.
+(* the referred column of a foreign key: ForeignKey._get_colspec() (which names the column by its KEY) and, when _fk_colspec
+   finds the referred table in the namespace MetaData, the same spec with the column's database NAME *)
+Record refcol := mkRef { rf_spec : str; rf_named : option str }.
+Definition ref_text (r:refcol) : str := match rf_named r with Some n => n | None => rf_spec r end.
 
 Inductive tcons :=
 | CPk (cols : list ident) (name : cname)
-| CFk (cols : list ident) (refcols : list str) (name : cname)
+| CFk (cols : list ident) (refcols : list refcol) (name : cname)
       (onupdate ondelete initially : option str) (deferrable : option bool) (use_alter : bool) (match_ : option str)
 | CUq (cols : list ident) (name : cname) (deferrable : option bool) (initially : option str)
 | CCk (sqltext : str) (name : cname).
@@ -144,7 +150,7 @@ Inductive tcons :=
 Record table := mkTable { t_name : ident; t_schema : option ident; t_cols : list column; t_cons : list tcons;
                           t_comment : option str; t_prefixes : list str; t_if_not_exists : option bool }.
 
-Inductive ixexpr := IxCol (i:ident) | IxExpr (sqltext:str).
+Inductive ixexpr := IxCol (i:ident) (key:option str) | IxExpr (sqltext:str).     (* key: as for c_key *)
 
 (* modify_server_default / modify_comment: False = leave alone, None = drop, value = set *)
 Inductive tri (A:Type) := Keep | SetNone | SetTo (a:A).
@@ -289,7 +295,7 @@ Definition render_constraint (c:cfg) (k:tcons) : option pyexpr :=
       end
   | CFk cols refcols n onupdate ondelete initially deferrable use_alter match_ =>
       Some (PCall [cfg_sa c; lit "ForeignKeyConstraint"]
-        ([PList (map id_ cols); PList (map Sr refcols)]
+        ([PList (map id_ cols); PList (map (fun r => Sr (ref_text r)) refcols)]
          ++ kwlist [("name"%string, opt_name c n); ("onupdate"%string, opt_s (truthy_s onupdate)); ("ondelete"%string, opt_s (truthy_s ondelete));
                     ("initially"%string, opt_s (truthy_s initially)); ("deferrable"%string, opt_b deferrable);
                     ("use_alter"%string, when use_alter (PBool true)); ("match"%string, opt_s (truthy_s match_))]))
@@ -316,7 +322,7 @@ Definition render_drop_table (c:cfg) (n:ident) (schema:option ident) (if_exists:
     ([id_ n] ++ kwlist [("schema"%string, opt_i (truthy schema)); ("if_exists"%string, opt_b if_exists)]).
 
 Definition render_ixexpr (c:cfg) (e:ixexpr) : pyexpr :=
-  match e with IxCol i => id_ i | IxExpr s => PCall [cfg_sa c; lit "literal_column"] [Sr s] end.
+  match e with IxCol i _ => id_ i | IxExpr s => PCall [cfg_sa c; lit "literal_column"] [Sr s] end.
 
 (* the renderers of the table-level operations; hb = autogen_context._has_batch *)
 Definition render_tbl_op (c:cfg) (hb:bool) (tn:ident) (schema:option ident) (o:tbl_op) : pyexpr :=
@@ -507,7 +513,7 @@ Definition eval_column (c:cfg) (e:pyexpr) : option column :=
   nullable <- (match kwarg "nullable" args with None => Some true | Some e => as_bool e end) ;;
   system <- (match kwarg "system" args with None => Some false | Some e => as_bool e end) ;;
   comment <- opt_arg as_str (kwarg "comment" args) ;;
-  Some (mkCol name ty dflt ai nullable system comment).
+  Some (mkCol name ty dflt ai nullable system comment None).
 
 Definition flag_arg (x:option pyexpr) : option bool := match x with None => Some false | Some e => as_bool e end.
 
@@ -529,7 +535,7 @@ Definition eval_constraint (c:cfg) (e:pyexpr) : option tcons :=
     ou <- opt_arg as_str (kwarg "onupdate" args) ;; od <- opt_arg as_str (kwarg "ondelete" args) ;;
     i <- opt_arg as_str (kwarg "initially" args) ;; d <- opt_arg as_bool (kwarg "deferrable" args) ;;
     ua <- flag_arg (kwarg "use_alter" args) ;; m <- opt_arg as_str (kwarg "match" args) ;;
-    Some (CFk cols refs name ou od i d ua m)
+    Some (CFk cols (map (fun s => mkRef s None) refs) name ou od i d ua m)
   else None.
 
 Definition is_column_call (c:cfg) (e:pyexpr) : bool :=
@@ -549,7 +555,7 @@ Definition eval_create_table (c:cfg) (args:list pyexpr) : option table :=
 
 Definition as_ixexpr (c:cfg) (e:pyexpr) : option ixexpr :=
   match e with
-  | PStr _ s => Some (IxCol (mkId s None))
+  | PStr _ s => Some (IxCol (mkId s None) None)
   | PCall [m; f] [PStr _ s] => if str_eqb m (cfg_sa c) && str_eqb f (lit "literal_column") then Some (IxExpr s) else None
   | _ => None
   end.
@@ -652,7 +658,30 @@ Definition eval_stmts (c:cfg) (l:list pystmt) : option (list top_op) := mapM (ev
 
 (* what executing the rendering of a list of operations is expected to invoke: a ModifyTableOps is a
    with-block in batch mode (nothing when empty) and its members one by one otherwise *)
-Definition expected_top (c:cfg) (o:top_op) : list top_op :=
+(* the operation objects built from the rendered text address every column by its database name: keys are gone *)
+Definition nk_col (x:column) : column :=
+  mkCol (c_name x) (c_type x) (c_default x) (c_autoinc x) (c_nullable x) (c_system x) (c_comment x) None.
+Definition nk_ref (r:refcol) : refcol := mkRef (ref_text r) None.
+Definition nk_cons (k:tcons) : tcons :=
+  match k with CFk cols refs n ou od i d ua m => CFk cols (map nk_ref refs) n ou od i d ua m | x => x end.
+Definition nk_ix (e:ixexpr) : ixexpr := match e with IxCol i _ => IxCol i None | x => x end.
+Definition nk_tbl_op (o:tbl_op) : tbl_op :=
+  match o with
+  | OAddColumn x => OAddColumn (nk_col x)
+  | OCreateIndex n e u i k => OCreateIndex n (map nk_ix e) u i k
+  | x => x
+  end.
+Definition nk_member (m:ident * option ident * tbl_op) := (fst (fst m), snd (fst m), nk_tbl_op (snd m)).
+Definition nk_top (o:top_op) : top_op :=
+  match o with
+  | TCreateTable t => TCreateTable (mkTable (t_name t) (t_schema t) (map nk_col (t_cols t)) (map nk_cons (t_cons t)) (t_comment t)
+                                           (t_prefixes t) (t_if_not_exists t))
+  | TOp tn s o => TOp tn s (nk_tbl_op o)
+  | TModify tn s ops => TModify tn s (map nk_member ops)
+  | x => x
+  end.
+Definition expected_top (c:cfg) (o0:top_op) : list top_op :=
+  let o := nk_top o0 in
   match o with
   | TModify tn s ops =>
       match ops with
